@@ -114,13 +114,22 @@ func c36R2(c *engine.Ctx) {
 	// SortEntities sorts with entitySorter
 	ok := false
 	for _, call := range engine.CallsTo(se, false, "sort.Sort", "sort.Stable") {
-		if strings.Contains(engine.Describe(call.Common().Args[0]), "p:"+se.Params[0].Name()) {
-			if mi, isMI := call.Common().Args[0].(*ssa.MakeInterface); isMI && strings.HasSuffix(mi.X.Type().String(), "entity.entitySorter") {
+		if mi, isMI := call.Common().Args[0].(*ssa.MakeInterface); isMI && strings.HasSuffix(mi.X.Type().String(), "entity.entitySorter") {
+			// the whole list, not a part of it (a sorted suffix leaves an earlier
+			// run in place), and on every path
+			whole := engine.Unwrap(mi.X) == ssa.Value(se.Params[0])
+			every := true
+			for _, r := range exits(se) {
+				if (engine.PathQuery{Fn: se, Barrier: func(i ssa.Instruction) bool { return i == call.(ssa.Instruction) }}).Reaches(r) {
+					every = false
+				}
+			}
+			if whole && every {
 				ok = true
 			}
 		}
 	}
-	c.Check(ok, "C36.R2", "SortEntities/uses-entitySorter", se.Pos(), "SortEntities must sort its argument with entitySorter")
+	c.Check(ok, "C36.R2", "SortEntities/uses-entitySorter", se.Pos(), "SortEntities must sort its whole argument with entitySorter on every path")
 }
 
 // sameSliceOrigin: both values denote the same slice variable (same leaves).
